@@ -32,10 +32,12 @@ THEOREMS = [
 ]
 LEAN_MODULES = ["Rink.Model.Cache", "Rink.Lemmas.Cache", "Rink.Props.C20"]
 
-CLI_TARGET = os.path.join(vlib.CACHE, "cli-target")
+# C20_REPO / C20_CLI_TARGET: development overrides (e.g. trying a changed copy of the repository)
+REPO = os.environ.get("C20_REPO") or "/repo"
+CLI_TARGET = os.environ.get("C20_CLI_TARGET") or os.path.join(vlib.CACHE, "cli-target")
 RINK = os.path.join(CLI_TARGET, "debug", "rink")
-SNAPSHOT = "/repo/core/tests/currency.snapshot.json"
-TRACE_SET = "trace=openat,open,creat,mkdir,mkdirat,rename,renameat,renameat2,unlink,unlinkat,write,pwrite64,writev,fsync,fdatasync,truncate,ftruncate,link,linkat"
+SNAPSHOT = os.path.join(REPO, "core", "tests", "currency.snapshot.json")
+TRACE_SET = "trace=openat,open,creat,mkdir,mkdirat,rename,renameat,renameat2,unlink,unlinkat,write,pwrite64,writev,fsync,fdatasync,truncate,ftruncate,link,linkat,copy_file_range,sendfile"
 QUERY_PLAIN = "1 meter -> feet"
 QUERY_MONEY = "1 EUR -> USD"
 PLAIN_ANSWER = "3.280839 foot"
@@ -263,6 +265,8 @@ class Runner:
         plan = dict(scn["server"])
         body = self.body_for(plan)
         kind = plan["kind"]
+        if kind == "close-delimited":          # what arrives *is* the body, for any client
+            body = body[:max(0, min(plan.get("cut", len(body)), len(body)))]
         kill = scn.get("kill")
         timeout = "800ms" if kind == "stall" and not (kill and "watch" in kill) else "20s"
         url = "http://127.0.0.1:%d/data/currency.json" % (fault_http.closed_port() if kind == "refused" else srv.port)
@@ -440,6 +444,10 @@ def parse_trace(path, cdir):
             ps = [p for p in paths if p.startswith(cdir + "/")]
             if ps:
                 tok = "unlink:%s" % name(ps[0])
+        elif sysc in ("copy_file_range", "sendfile"):
+            fp = [p for p in fdpaths if p.startswith(cdir + "/")]
+            if fp:
+                tok = "copy:%s" % ":".join(name(p) for p in fp)
         elif sysc in ("truncate", "ftruncate"):
             fp = [p for p in fdpaths + paths if p.startswith(cdir + "/")]
             if fp:
@@ -459,31 +467,40 @@ def parse_trace(path, cdir):
     return ops, killed_in, raw
 
 
-def count_syscalls(trace_path):
-    """From the trace of the un-killed run: how many write(2) calls the thread that handles the
-    cache directory made up to and including the first one after the rename/unlink of the temp
-    file (these are the kill points `write#1 .. write#w`)."""
+def kill_points(trace_path, cdir):
+    """From the trace of the un-killed run: the crash points to exercise, as (syscall, when) for
+    `strace -e inject=<syscall>:signal=SIGKILL:when=<when>` (the signal arrives at the entry of
+    that call, which is then not executed).  Points: every system call on the cache directory,
+    the traced call that follows each of them (crash right after the step), and every write(2)
+    of that thread up to the first one after the rename/unlink of the temp file."""
     txt = open(trace_path, encoding="utf-8", errors="replace").read().split("\n")
     main = None
     for ln in txt:
-        if "currency." in ln:
+        if cdir in ln:
             m = re.match(r"^(\d+)\s", ln)
             if m:
                 main = m.group(1)
                 break
+    counts, pts, want_next = {}, [], False
     nwrite, last, seen_commit = 0, 0, False
     for ln in txt:
         m = re.match(r"^(\d+)\s+(\w+)\(", ln)
         if not m or (main and m.group(1) != main):
             continue
         sysc = m.group(2)
+        counts[sysc] = counts.get(sysc, 0) + 1
+        here = (sysc, counts[sysc])
+        on_dir = cdir in ln
+        if (on_dir or want_next) and sysc != "write" and here not in pts:
+            pts.append(here)
+        want_next = on_dir
         if sysc == "write":
             nwrite += 1
             if seen_commit and not last:
                 last = nwrite
-        if sysc in ("rename", "renameat", "renameat2", "unlink", "unlinkat") and "currency." in ln:
+        if sysc in ("rename", "renameat", "renameat2", "unlink", "unlinkat", "link", "linkat", "copy_file_range", "sendfile") and on_dir:
             seen_commit = True
-    return {"writes_until_after_commit": last or nwrite}
+    return [("write", i) for i in range(1, (last or nwrite) + 1)] + pts
 
 
 # ------------------------------------------------------------------------------ model lines
@@ -680,7 +697,7 @@ def public_scn(scn):
 # ------------------------------------------------------------------------------ the check
 def build_cli(c):
     env = dict(vlib.ENV, CARGO_TARGET_DIR=CLI_TARGET)
-    rc, out = vlib.sh(["cargo", "build", "--offline", "-p", "rink"], cwd="/repo", env=env, timeout=3600)
+    rc, out = vlib.sh(["cargo", "build", "--offline", "-p", "rink"], cwd=REPO, env=env, timeout=3600)
     ok = rc == 0 and os.path.exists(RINK)
     c.obligations.append(("build:rink CLI from /repo's working tree", ok, "" if ok else out[-1500:]))
     if not ok:
@@ -798,20 +815,12 @@ def run(c):
         if use_strace:
             bases = kill_bases(c.thorough, n)
             bobs = execute(c, runner, bases, jobs)
+            stats["runs"] += 2 * len(bases)
             for b, o in zip(bases, bobs):
                 tp = os.path.join(o["root"], "trace.txt")
                 if not os.path.exists(tp):
                     continue
-                w = count_syscalls(tp)["writes_until_after_commit"]
-                toks = " ".join(o["ops"] or [])
-                pts = [("write", i) for i in range(1, w + 1)] + [("mkdir", 1)]
-                if "fsync:" in toks:
-                    pts.append(("fsync", 1))
-                if "rename:" in toks:
-                    pts.append(("rename,renameat,renameat2", 1))
-                if "unlink:" in toks:
-                    pts.append(("unlink,unlinkat", 1))
-                for sysc, when in pts:
+                for sysc, when in kill_points(tp, os.path.join(o["root"], "cache", "rink")):
                     kills.append(dict(b, kill={"syscall": sysc, "when": when}))
         # 3. kill in the middle of a stalled transfer (temp file holds k bytes)
         wk = [1000] if not c.thorough else [1, 1000, 1448, n - 1]
@@ -827,7 +836,8 @@ def run(c):
         landed = sum(1 for s, o in zip(kills, kobs) if o["rc"] in (-9, 137) or (o.get("watch") or {}).get("killed"))
         crash_states = {}
         for s, o in zip(kills, kobs):
-            kk = (o.get("killed_in") or ("mid-transfer" if (o.get("watch") or {}).get("killed") else "not-reached"))
+            kk = (o.get("killed_in") or ("mid-transfer" if (o.get("watch") or {}).get("killed") else
+                                         "at-a-call-outside-the-cache-dir" if o["rc"] in (-9, 137) else "not-reached"))
             crash_states.setdefault(kk.split(":")[0], {}).setdefault(o["after"], 0)
             crash_states[kk.split(":")[0]][o["after"]] += 1
         # 4. an orphan temp file from a killed run does not disturb a later refresh
@@ -899,7 +909,7 @@ def replay(path):
             print("VIOLATION property=C20 replay=%s" % path)
         return 1 if rc != 0 else 0
     env = dict(vlib.ENV, CARGO_TARGET_DIR=CLI_TARGET)
-    vlib.sh(["cargo", "build", "--offline", "-p", "rink"], cwd="/repo", env=env, timeout=3600)
+    vlib.sh(["cargo", "build", "--offline", "-p", "rink"], cwd=REPO, env=env, timeout=3600)
     vlib.sh(["lake", "build", "rinkmodel"], cwd=vlib.LEAN)
     work = os.path.join(vlib.CACHE, "replay", "C20")
     shutil.rmtree(work, ignore_errors=True)
